@@ -224,6 +224,15 @@ impl DnaString {
     pub fn from_acgt_bytes(bytes: &[u8]) -> DnaString {
         let mut dna_string = DnaString::with_capacity(bytes.len());
 
+        #[cfg(feature = "verif_hooks")]
+        {
+            if crate::verif_hooks::force_scalar() {
+                let b = bytes.iter().map(|c| base_to_bits(*c));
+                dna_string.extend(b);
+                return dna_string;
+            }
+        }
+
         // Accelerated avx2 mode. Should run on most machines made since 2013.
         #[cfg(any(target_arch = "x86", target_arch = "x86_64"))]
         {
